@@ -11,6 +11,7 @@ CALLBACK_TRAITS = (
 class CallGraph:
     def __init__(self, F):
         self.F = F
+        self.local = F.d.get("crate", "tlsh")
         self.nodes = {}
         for b in F.bodies:
             if b.mir is None:
@@ -93,7 +94,7 @@ class CallGraph:
                     # unresolved: trait method
                     tr_item = c["path"]
                     impls = self.impl_methods.get(tr_item, [])
-                    if c.get("trait_krate") == "tlsh" or impls:
+                    if c.get("trait_krate") == self.local or impls:
                         for m in impls:
                             self._add(src, m)
                         self._add(src, tr_item)  # default body, if any
@@ -102,7 +103,7 @@ class CallGraph:
                         self.ext[src].add((c["path"], c.get("krate")))
                     continue
                 for r in targets:
-                    if r["krate"] == "tlsh":
+                    if r["krate"] == self.local:
                         if not self._add(src, r["path"]):
                             self.unknown[src].add("local callee without body %s" % r["path"])
                     else:
@@ -144,7 +145,7 @@ class CallGraph:
             return
         k = t.get("k")
         if k == "adt":
-            if t.get("krate") == "tlsh":
+            if t.get("krate") == self.local:
                 for tr, m in self.methods_of_adt.get(t["path"], []):
                     if tr in CALLBACK_TRAITS:
                         self._add(src, m, speculative=True)
@@ -169,7 +170,7 @@ class CallGraph:
         elif k == "closure":
             self._add(src, t["path"])
         elif k == "fndef":
-            if t.get("krate") == "tlsh":
+            if t.get("krate") == self.local:
                 self._add(src, t["path"])
 
     def _scan_operand(self, src, op):
@@ -177,7 +178,7 @@ class CallGraph:
         if not c:
             return
         if c.get("k") == "fn":
-            if c.get("krate") == "tlsh":
+            if c.get("krate") == self.local:
                 self._add(src, c["path"])
             else:
                 self.ext[src].add((c["path"], c.get("krate")))
